@@ -199,6 +199,85 @@ pub fn run(ctx: &mut Ctx) {
 
 /// engine level: set_beta(b) must make synthesis use exactly the postfilter with b (and only the
 /// spectrum rendering changes: trajectories stay bit-equal)
+/// With a constant spectrum the synthesis filter is time-invariant from the second frame on,
+/// whatever the voicing does: the output must be the excitation (the same pitch / voicing
+/// sequence rendered with an all-zero spectrum) convolved with the measured pulse response —
+/// in unvoiced frames and at voicing onsets just as in the voiced steady state.
+pub fn voicing_switches(ctx: &mut Ctx) {
+    use crate::pulse::LN20;
+    use crate::synth::NODATA;
+    let n = ctx.n(64, 1500);
+    ctx.run_cases("voicing-switches", n, false, |ctx, rng, idx| {
+        let rate = [8000usize, 16000][idx % 2];
+        let p = rate / 20;
+        let order = rng.range(3, 30);
+        let alpha = alpha_pick(rng);
+        let beta = if idx % 6 == 5 { 0.0 } else { rng.uniform(0.1, 0.5) };
+        let target = rng.uniform(0.3, 1.3);
+        let c = random_cepstrum(rng, order, alpha, target);
+        let voc = Vocoder::new(order, 0, 0, false, rate, alpha, beta, 1.0, p);
+        let st = steady_state(voc.clone(), &c, p, 48, 1e-11);
+        if !(st.finite && st.converged && st.decayed) {
+            ctx.count("voicing_switch_cases_skipped_response_too_long", 1.0);
+            return;
+        }
+        let h: Vec<f64> = (0..p).map(|k| st.period[(k + 1) % p] / (p as f64).sqrt()).collect();
+        // two voiced warm-up frames (the first frame glides from the plain to the postfiltered
+        // coefficients), then a random pattern that contains an unvoiced -> voiced onset
+        let mut lf0 = vec![LN20, LN20];
+        for _ in 0..3 {
+            lf0.push(if rng.chance(0.5) { NODATA } else { LN20 });
+        }
+        lf0.push(NODATA);
+        lf0.push(LN20);
+        lf0.push(if rng.chance(0.5) { NODATA } else { LN20 });
+        let render = |mut v: Vocoder, spec: &[f64]| -> Vec<f64> {
+            let mut out = Vec::with_capacity(lf0.len() * p);
+            let mut buf = vec![0.0; p];
+            for l in &lf0 {
+                v.synthesize(*l, spec, &[], &mut buf);
+                out.extend_from_slice(&buf);
+            }
+            out
+        };
+        let y = render(voc, &c);
+        let e = render(Vocoder::new(order, 0, 0, false, rate, alpha, 0.0, 1.0, p), &vec![0.0; order]);
+        let peak = y.iter().skip(2 * p).fold(0.0f64, |m, x| m.max(x.abs()));
+        let mut worst = 0.0f64;
+        let mut at = 0;
+        for n in 2 * p..y.len() {
+            let mut want = 0.0;
+            for (k, hk) in h.iter().enumerate() {
+                want += hk * e[n - k];
+            }
+            let d = (y[n] - want).abs();
+            if d > worst || d.is_nan() {
+                worst = d;
+                at = n;
+            }
+        }
+        ctx.max("voicing_switch_worst_relative_deviation", worst / peak.max(1e-300));
+        ctx.count("voicing_switch_frames_compared", (lf0.len() - 2) as f64);
+        if !(worst <= 1e-6 * peak) {
+            ctx.violation(
+                "filter-depends-on-voicing",
+                J::obj()
+                    .set("order", order)
+                    .set("alpha", alpha)
+                    .set("beta", beta)
+                    .set("rate", rate)
+                    .set("voiced_frames", J::Arr(lf0.iter().map(|l| J::from((*l != NODATA) as usize)).collect()))
+                    .set("cepstrum", fvec(&c, 40))
+                    .set("worst_abs_deviation", worst)
+                    .set("peak", peak)
+                    .set("at_frame", at / p)
+                    .set("at_sample_in_frame", at % p),
+            );
+        }
+        ctx.nontrivial(mix(&[0x75, order as u64, (beta * 100.0) as u64, lf0.iter().fold(0u64, |a, l| a * 2 + (*l != NODATA) as u64)]));
+    });
+}
+
 pub fn end_to_end(ctx: &mut Ctx) {
     use crate::env::{Cond, Env};
     use crate::mon::c01::load_synthetic;
